@@ -341,6 +341,10 @@ def oracle_c07(evs, term, case):
                 left = [k for k in init_order.get(c, [])]
                 if left:
                     out.append(("C07", "awaiting the JoinHandle of task %d returned before the destructors of its thread-locals %s ran" % (c, left), None))
+                later = [j for j in range(i + 1, len(evs)) if evs[j].kind == "O" and evs[j].task == c]
+                if later:
+                    out.append(("C07", "awaiting the JoinHandle of task %d returned (%s) while the task still takes steps (record %s): the result was published before the future and its locals were dropped"
+                                % (c, "Cancelled" if e.vals and e.vals[0] == 1 else "Ok", evs[later[0]].tag), None))
         if e.tag == 9:
             if t in ended:
                 out.append(("C07", "task %d reached the end of its closure twice" % t, None))
